@@ -266,6 +266,16 @@ func extractC06(c *Ctx) error {
 		return err
 	}
 
+	// ---- 3c. every production site that puts a message with MsgIDToReplace (Queue.Put keeps SignData on replace) ----
+	rc, err := replaceCallers(c)
+	if err != nil {
+		return err
+	}
+	c.P("(* production (non-test) functions that build PutOptions with MsgIDToReplace / assign that field: Queue.Put keeps the")
+	c.P("   SignData of a replaced message, so each such caller must not change covered fields of a signed message *)")
+	c.P("Definition replace_callers : list string := %s.", CoqStrList(rc))
+	c.Info("replace_callers", rc)
+
 	// ---- 4. call-graph query: who calls the signature-keeping reassignment ----
 	callers, err := reassignCallers(c)
 	if err != nil {
@@ -767,4 +777,65 @@ func c06Readers(c *Ctx) error {
 	c.P("Definition signing_key_match_fields : list string := %s.", CoqStrList(SortedSet(common)))
 	c.P("Definition signing_key_exits : Z := %d.", len(fieldSets))
 	return nil
+}
+
+// replaceCallers scans every non-test Go file for `MsgIDToReplace: ...` inside a composite literal and for assignments
+// to a `.MsgIDToReplace` field (the option's declaration and Queue.Put's own read of it are not writers).
+func replaceCallers(c *Ctx) ([]string, error) {
+	set := map[string]bool{}
+	skipDir := map[string]bool{"mocks": true, "testutil": true, "tests": true, ".git": true, "node_modules": true, "vue": true, "docs": true, "proto": true}
+	err := filepath.WalkDir(c.Repo, func(p string, d fs.DirEntry, err error) error {
+		if err != nil {
+			return err
+		}
+		if d.IsDir() {
+			if skipDir[d.Name()] {
+				return filepath.SkipDir
+			}
+			return nil
+		}
+		n := d.Name()
+		if !strings.HasSuffix(n, ".go") || strings.HasSuffix(n, "_test.go") || strings.HasPrefix(n, "verif_hooks") {
+			return nil
+		}
+		src, err := os.ReadFile(p)
+		if err != nil {
+			return err
+		}
+		if !strings.Contains(string(src), "MsgIDToReplace") {
+			return nil
+		}
+		rel, _ := filepath.Rel(c.Repo, p)
+		f, err := c.Parse(rel)
+		if err != nil {
+			return err
+		}
+		for _, dcl := range f.Decls {
+			fd, ok := dcl.(*ast.FuncDecl)
+			if !ok || fd.Body == nil {
+				continue
+			}
+			who := rel + ":" + c06RecvName(fd) + "." + fd.Name.Name
+			ast.Inspect(fd.Body, func(x ast.Node) bool {
+				switch e := x.(type) {
+				case *ast.KeyValueExpr:
+					if id, ok := e.Key.(*ast.Ident); ok && id.Name == "MsgIDToReplace" {
+						set[who] = true
+					}
+				case *ast.AssignStmt:
+					for _, l := range e.Lhs {
+						if se, ok := l.(*ast.SelectorExpr); ok && se.Sel.Name == "MsgIDToReplace" {
+							set[who] = true
+						}
+					}
+				}
+				return true
+			})
+		}
+		return nil
+	})
+	if err != nil {
+		return nil, err
+	}
+	return SortedSet(set), nil
 }
